@@ -775,12 +775,34 @@ func (e *evalCtx) callExpr(x *sx) sval {
 		return boolv("(isprint " + v.term + ")")
 	case "called":
 		// called("Name"): this activation has called a function / method of that name
-		tag := t.c.declare("callee:"+args[0].val, "Int")
+		if e.fn != t.fn {
+			// a callee's own event log says nothing about the caller's: no information
+			return boolv(t.c.declare(t.c.fresh("calleelog"), "Bool"))
+		}
+		tag := nameTag("callee:"+args[0].val)
 		hv := t.h.reg("ghost:called", "(Array Int Bool)")
 		return boolv(sel(t.h.get(e.st, hv), tag))
+	case "called_since":
+		// called_since("site", "Name"): a call of that name happened after the given site state
+		if args[0].op != "str" || args[1].op != "str" {
+			e.fail("called_since(\"site\", \"Name\")")
+		}
+		if e.fn != t.fn {
+			return boolv(t.c.declare(t.c.fresh("calleelog"), "Bool"))
+		}
+		st, ok := t.siteState[args[0].val]
+		if !ok {
+			e.fail("unknown site %q", args[0].val)
+		}
+		tag := nameTag("callee:"+args[1].val)
+		hv := t.h.reg("ghost:called", "(Array Int Bool)")
+		return boolv(and(sel(t.h.get(e.st, hv), tag), not(sel(t.h.get(st, hv), tag))))
 	case "spawned":
 		// spawned("name"): a goroutine / timer callback of that function was started
-		tag := t.c.declare("spawn:"+args[0].val, "Int")
+		if e.fn != t.fn {
+			return boolv(t.c.declare(t.c.fresh("calleelog"), "Bool"))
+		}
+		tag := nameTag("spawn:"+args[0].val)
 		hv := t.h.reg("ghost:spawned", "(Array Int Bool)")
 		return boolv(sel(t.h.get(e.st, hv), tag))
 	case "timer_d":
@@ -853,6 +875,12 @@ func (e *evalCtx) callExpr(x *sx) sval {
 			return e.mk(t.ifacePayload(T, v.term), T)
 		}
 		return e.mk(v.term, T)
+	case "callee_is":
+		// callee_is("(*pkg.T).M"): the call this clause is attached to statically calls that function
+		if args[0].op != "str" {
+			e.fail("callee_is(\"name\")")
+		}
+		return boolv(fmt.Sprint(t.curCallee == args[0].val))
 	case "selwaits", "selsends":
 		// selwaits(ch) / selwaits("select#n", ch): that select has a receive case on channel ch
 		// selsends(ch): ... a send case on ch.  Without a label: the select this clause is attached to.
